@@ -197,6 +197,66 @@ CHECKS = {
              "independent (a pass is sound, a mismatch is triaged). A float shadow only picks the "
              "side of a break point; break points and out-of-domain points are skipped and "
              "counted. A bare `log` in results is accepted as the natural logarithm."),
+    "C01": dict(
+        category="model_checking", design="DESIGN.md 4/C01",
+        technique="all ordered pairs of a variant pool against a spec-level equality reference, "
+                  "plus explicit-state BFS over hash/compare/copy/pickle/map histories with the "
+                  "full equality-hash matrix after every history, in default and -O mode",
+        text="Engine A: for every built-in node class and each of 76 generated user classes "
+             "(decorated, undecorated, legacy, mixed hierarchies) a base instance, a clone, one "
+             "variant per field, typed-constant and normalisation variants and same-field "
+             "instances of neighbouring classes; ALL ordered pairs of this pool (about 1.1M) are "
+             "compared with a reference that reads the fields by introspection: ==, !=, hash "
+             "consistency, dict/set substitution; every field of every pool object is set and "
+             "deleted. Engine B: per family all histories up to depth 2-3 over 10+ operations on "
+             "3-4 objects (11M transitions thorough), the complete matrix over live and derived "
+             "objects after each. Both interpreter modes.",
+        note="Trusted: vf/spec.py to_spec as the reading of the fields; Python's == on "
+             "constants. Transitivity follows because the reference is an equivalence relation "
+             "and every pair agrees with it."),
+    "C11": dict(
+        category="exploration", design="DESIGN.md 4/C11",
+        technique="bounded-exhaustive tree enumeration x 8 rewriter configurations x hash seeds, "
+                  "decided by an exact rational-function oracle and structural normal-form readers",
+        text="Every tree of the rational fragment to depth 3 (plus deeper products and powers "
+             "of sums) under every listed hash seed, and every evaluable constructor shape or "
+             "nesting for flatten and the folders: each instance is decided by identity of exact "
+             "rational functions plus definedness on a Fraction box; the normal-form clauses "
+             "(no sum under sum, neutral elements dropped, one constant per folded node, "
+             "expanded polynomials with merged like terms equal to the canonical monomial "
+             "dictionary) are checked structurally on the output.",
+        note="Trusted: vf.exact (Poly, RatFun), vf.refsem, vf.spec. Float constants are decoded "
+             "as rationals with denominator <= 4096. Inputs with no exact value are excluded; "
+             "TermCollector's fragment is its documented precondition."),
+    "C16": dict(
+        category="exploration", design="DESIGN.md 4/C16",
+        technique="bounded-exhaustive pattern/target/candidate enumeration against an independent "
+                  "substitution and AC-normal-form model, under several hash seeds",
+        text="Every (pattern, candidate set, target) triple of the stated space (targets as "
+             "instances under every assignment, reordered and regrouped, as injective renamings "
+             "and as independent trees) and every matchpy-bridge (subject, pattern) pair is "
+             "executed on the real unifier / bridge under 3 (quick) / 8 (thorough) hash seeds: "
+             "every record must bind only candidates, one value per name, and instantiate to "
+             "the target up to AC; every injective renaming must be matched; round trips, "
+             "matches and replacements obey the same law.",
+        note="Trusted: vf.spec build/to_spec, the spec-level substitution and normal forms of "
+             "vf/c16_model.py, matchpy 0.5.5 itself. Completeness is demanded only for "
+             "structural renamings; looping rewrite rules are skipped."),
+    "C18": dict(
+        category="exploration", design="DESIGN.md 4/C18",
+        technique="bounded-exhaustive blade-level enumeration over all small diagonal metrics "
+                  "against an independent list-based Clifford product",
+        text="Every diagonal metric over {1,-1,0,2} in dimensions 0-3 (thorough 0-4 plus 8 "
+             "metrics in dimension 5) and three metric dtypes: all blade pairs under six "
+             "products, all blade triples for associativity, two-term operands and all "
+             "multivectors over {0,1,-1} in dimension <= 2 for bilinearity and ==/hash/bool, all "
+             "unary operations and inverses, with exact integer, rational and symbolic "
+             "coefficients (1.1M cases quick, 20.9M thorough). Products are bilinear and "
+             "blade-level results agree exactly with the oracle, so the identities are decided "
+             "for every multivector of these spaces.",
+        note="Trusted: the reference algebra vf/c18_ref.py (bubble-sort blade product, exact "
+             "arithmetic, self-checked against vf.exact.RatFun). Bounded assurance, not a proof "
+             "for arbitrary dimension or metric entries."),
 }
 
 NOT_BUILT_REASON = "check not built yet in this revision (planned, see DESIGN.md section 4)"
